@@ -7,4 +7,6 @@ require (
 	github.com/anishathalye/porcupine v1.3.0
 )
 
+require github.com/cespare/xxhash/v2 v2.3.0 // indirect
+
 replace github.com/KevoDB/kevo => /repo
